@@ -240,3 +240,38 @@ def resolve_real(target):
             cur = getattr(cur, p)
         return cur
     raise ImportError(target)
+
+
+class FixedCtx(SymCtx):
+    """pyvc objects, concrete input values: runs the interpreter concretely (CPython cross-check of the encoder)."""
+    symbolic = True  # contracts take the pyvc-object branch
+
+    def __init__(self, pathctx, loader, values):
+        SymCtx.__init__(self, pathctx, loader)
+        self.values = values
+
+    def int(self, name, lo=None, hi=None):
+        return int(self.values.get(name, lo if lo is not None else 0))
+
+    def bool(self, name):
+        return bool(self.values.get(name, False))
+
+    def bytes(self, name, n, mutable=False):
+        v = list(self.values.get(name, [0] * n)) + [0] * n
+        b = bytes(v[:n])
+        return bytearray(b) if mutable else b
+
+    def choice(self, name, options):
+        return options[self.int(name + '#', 0, len(options) - 1)]
+
+    def digits(self, x, size, signed=False):
+        if signed and x < 0:
+            x += 1 << (8 * size)
+        return [(x >> (8 * i)) & 0xff for i in range(size)]
+
+    def assume(self, cond):
+        if not is_sym(cond) and not cond:
+            from .interp import PathEnd
+            raise PathEnd()
+        if is_sym(cond):
+            self.p.assume(cond)
